@@ -65,10 +65,10 @@ def _count_prefixes(alpha, n):
 def runs(tier, seed):
     n = _count_prefixes(_alphabet(NP, NT), PREFIX)
     if tier == "thorough":
-        return [Run("txrequest_ex", cases=n, params={"peers": NP, "txs": NT, "len": 6, "prefix": PREFIX}, timeout=3000, name="exhaustive"),
-                Run("txrequest_rand", cases=400000, params={"len": 200}, timeout=3000, name="random")]
-    return [Run("txrequest_ex", cases=n, params={"peers": NP, "txs": NT, "len": 5, "prefix": PREFIX}, timeout=900, name="exhaustive"),
-            Run("txrequest_rand", cases=5000, params={"len": 200}, timeout=900, name="random")]
+        return [Run("txrequest_ex", cases=n, params={"peers": NP, "txs": NT, "len": 6, "prefix": PREFIX}, timeout=14400, name="exhaustive"),
+                Run("txrequest_rand", cases=400000, params={"len": 200}, timeout=14400, name="random")]
+    return [Run("txrequest_ex", cases=n, params={"peers": NP, "txs": NT, "len": 5, "prefix": PREFIX}, timeout=7200, name="exhaustive"),
+            Run("txrequest_rand", cases=5000, params={"len": 200}, timeout=7200, name="random")]
 
 
 def check(rec, st):
